@@ -682,6 +682,8 @@ def a_grade(cx, rule, floor, levels=('Fp2', 'Fp4', 'Fp12')):
             want = expected(ln)
         elif ln in FROB:
             want = D.vec(1, 0)
+        elif ln == 'fp_line_mul':
+            want = D.vec(2, 0)
         else:
             continue
         g = Grader(F, fn, D)
@@ -689,6 +691,10 @@ def a_grade(cx, rule, floor, levels=('Fp2', 'Fp4', 'Fp12')):
         for i in range(1, fn.arg_count + 1):
             sh = shape_of_ty(fn.local_ty(i))
             init[i] = g.mk(sh, D.vec(1, 0)) if isinstance(sh, str) else U
+            if ln == 'fp_line_mul' and sh == ('arr', 'Fp2', 3):
+                # the sparse line is  lw[0] + lw[1]*w^2 + lw[2]*v : as coefficients of a weight-0 element of Fp12 the three
+                # Fp2 values carry the tower weights 0, -2, -3
+                init[i] = [g.mk('Fp2', D.vec(1, 0)), g.mk('Fp2', D.vec(1, -2)), g.mk('Fp2', D.vec(1, -3))]
         out = g.run(init)
         got = g.grade(lv, out)
         n += 1
